@@ -39,7 +39,7 @@ Proof.
   destruct (quality_of c s parent (num_of id) just) as [q|]; [|intros []].
   destruct (comm && (1 <? q) && (num_of (finalized c s) <? checkpoint (c_L c) (num_of id))).
   - destruct (find_checkpoint c _ (q - 1) (finalized c s) id) as [f|]; cbn [writes_of_steps flat_map app].
-    + intros [<-|[<-|[]]] [<-|[]]; simpl; auto.
+    + intros [<-|[]] [<-|[<-|[]]]; simpl; auto.
     + intros [<-|[]] [<-|[]]; simpl; auto.
   - cbn [writes_of_steps flat_map app]. intros [<-|[]] [<-|[]]; simpl; auto.
 Qed.
